@@ -12,8 +12,12 @@ CLAIMS = {
    design='§3 C11'),
  'C12': dict(engine='mirsym', technique='bounded symbolic execution of the MIR of Apath::is_prefix_of with z3 against a whole-component ancestry oracle; native replay',
    text='For every pair of valid paths of up to N code points (any scalar value) is_prefix_of equals "same path, root, or ancestor by whole components"; bounded-holds within N (8 quick / 10 thorough).',
-   note='Trusted: MIR printer, mirsym + str models (differentially validated each run), z3. The subtree filter inside Stitch::next/restore is exercised by the C08 harness.',
+   note='Trusted: MIR printer, mirsym + str models (differentially validated each run), Store/JSON models, z3. Second obligation: Stitch::next with a subtree filter over two-band stitched versions with two-level symbolic paths equals the whole-component rule. restore --only over the syscall model is not yet covered.',
    design='§3 C12'),
+ 'C08': dict(engine='mirsym', technique='bounded symbolic execution of the MIR of Stitch::next / IndexHunkIter::next / Band::open / previous_existing_band over a symbolic archive store with z3, against an independently written stitching rule; native replay on an archive written directly in the documented format',
+   text='For every arrangement of up to 3 (quick) / 4 (thorough) bands, each absent / headless / headless-with-tail / open / closed, each with one of 7-8 hunk layouts (empty hunk, gap, up to 2-3 hunks), and every relative order of the symbolic entry paths across bands, the listing produced by the real state machine equals the stitching rule, is strictly increasing, reports no spurious error and terminates; bounded-holds within those shapes.',
+   note='Trusted: MIR printer, mirsym and its Vec/iterator/Option models, the Store transport model (mirsym/env.py), Snappy+JSON modelled as exact inverses, z3. Entry paths are "/"+one symbolic code point here; two-level paths with a subtree filter are exercised by the C12 check.',
+   design='§3 C08'),
 }
 NA = {
  'C15': 'exclusion semantics live in globset/regex automata, which neither Kani nor the MIR interpreter can execute; a model of glob matching would verify the model, not conserve (DESIGN §4)',
